@@ -186,8 +186,15 @@ func (p *Parser) parseSliceExpression() (ASTNode, error) {
 	for current != tRbracket && index < 3 {
 		if current == tColon {
 			index++
+			if index == 3 {
+				return ASTNode{}, p.syntaxError("Too many colons in slice expression")
+			}
 			p.advance()
 		} else if current == tNumber {
+			if parts[index] != nil {
+				return ASTNode{}, p.syntaxError(
+					"Expected tColon or tRbracket" + ", received: " + p.current().String())
+			}
 			parsedInt, err := strconv.Atoi(p.lookaheadToken(0).value)
 			if err != nil {
 				return ASTNode{}, err
@@ -254,12 +261,18 @@ func (p *Parser) led(tokenType tokType, node ASTNode) (ASTNode, error) {
 			if err != nil {
 				return ASTNode{}, err
 			}
-			if p.current() == tComma {
-				if err := p.match(tComma); err != nil {
-					return ASTNode{}, err
-				}
-			}
 			args = append(args, expression)
+			if p.current() == tRparen {
+				break
+			}
+			// Arguments are separated by commas, and a comma must be
+			// followed by another argument.
+			if err := p.match(tComma); err != nil {
+				return ASTNode{}, err
+			}
+			if p.current() == tRparen {
+				return ASTNode{}, p.syntaxError("Expected an argument after tComma, received: " + p.current().String())
+			}
 		}
 		if err := p.match(tRparen); err != nil {
 			return ASTNode{}, err
@@ -480,14 +493,16 @@ func (p *Parser) parseMultiSelectHash() (ASTNode, error) {
 		if p.current() == tComma {
 			err := p.match(tComma)
 			if err != nil {
-				return ASTNode{}, nil
+				return ASTNode{}, err
 			}
 		} else if p.current() == tRbrace {
 			err := p.match(tRbrace)
 			if err != nil {
-				return ASTNode{}, nil
+				return ASTNode{}, err
 			}
 			break
+		} else {
+			return ASTNode{}, p.syntaxError("Expected tComma or tRbrace, received: " + p.current().String())
 		}
 	}
 	return ASTNode{
@@ -558,7 +573,13 @@ func (p *Parser) parseProjectionRHS(bindingPower int) (ASTNode, error) {
 	if bindingPowers[current] < 10 {
 		return ASTNode{nodeType: ASTIdentity}, nil
 	} else if current == tLbracket {
-		return p.parseExpression(bindingPower)
+		// Only a bracket specifier (index, slice or [*]) can follow a
+		// projection directly; a multi-select list needs a dot.
+		next := p.lookahead(1)
+		if next == tNumber || next == tColon || (next == tStar && p.lookahead(2) == tRbracket) {
+			return p.parseExpression(bindingPower)
+		}
+		return ASTNode{}, p.syntaxErrorToken("Expected an index, a slice or [*] after a projection", p.lookaheadToken(1))
 	} else if current == tFilter {
 		return p.parseExpression(bindingPower)
 	} else if current == tDot {
